@@ -51,7 +51,7 @@ var (
 	tags    = flag.String("tags", "verif", "build tags")
 	goBin   = flag.String("go", "go1.26.8", "go binary")
 	extra   = flag.String("overlay-extra", "", "JSON file with additional overlay entries to merge")
-	osredir = flag.String("osredirect", "", "comma separated pkg/file.go whose import of \"os\" is redirected to the simulated disk")
+	osredir = flag.String("osredirect", "", "comma separated pkg/file.go (or pkg/* for every file of the package) whose import of \"os\" is redirected to the simulated disk")
 	observe = flag.String("observe", "go.miragespace.co/specter/spec/rpc.WrapError,go.miragespace.co/specter/spec/rpc.WrapErrorKV", "comma separated importpath.Func: calls are routed through simrt.ObserveN so that a harness hook sees arguments and result")
 )
 
@@ -235,7 +235,7 @@ func instrumentPackage(lp *listPkg, level int, fileLevels map[string]int, export
 		rw := &rewriter{fset: fset, info: info, pkg: pkg, file: af, fname: names[i], rel: rel + "/" + filepath.Base(names[i]), level: lv, stats: stats}
 		rw.run()
 		for _, r := range strings.Split(*osredir, ",") {
-			if r != "" && r == rel+"/"+filepath.Base(names[i]) {
+			if r != "" && (r == rel+"/"+filepath.Base(names[i]) || r == rel+"/*") {
 				for _, im := range af.Imports {
 					if im.Path.Value == `"os"` {
 						im.Path.Value = `"specterverif/simfs/shimos"`
